@@ -14,6 +14,8 @@ HARNESSES = [
     {"name": "nochecks", "src": "harness.cpp", "flags": ["-O2"]},
     # the same batteries and probes under ASan+UBSan (the allocation interposers are compiled out: ASan owns malloc)
     {"name": "san", "src": "harness.cpp", "flags": ["-O1", "-g0", "-DC02_SAN=1", "-DTETL_ENABLE_CONTRACT_CHECKS=1"] + SAN},
+    # the constexpr batteries evaluated by the constant evaluator (table ce_table): UB there makes THIS variant ill-formed
+    {"name": "ce", "src": "harness.cpp", "flags": ["-O0", "-DC02_CE=1", "-DTETL_ENABLE_CONTRACT_CHECKS=1"]},
 ]
 N_BATTERIES = 16
 N_CE = 12
@@ -27,7 +29,8 @@ RULE = ("own legs: %d operation batteries (vectors, inplace_vector, strings in b
         "chrono, cstring/cctype/cstdlib/cwchar, stack/iterators/uninitialised-memory algorithms) x seeds under an allocation "
         "counter (replaced operator new + interposed malloc family), the same under ASan+UBSan (variant san); %d constexpr "
         "batteries x 3 seeds evaluated by GCC's constant evaluator at compile time (UB there = the harness does not build) and "
-        "compared with their run-time values; %d object kinds default-initialised over 0xFF-poisoned storage; "
+        "compared with their run-time values; %d object kinds default-initialised over 0xFF-poisoned storage; to_floating_point on every "
+        "view of length <= 3 (9-character alphabet, flush against the end of an exact-size heap buffer) + seeded random longer ones; "
         "aggregated legs: the cases of the listed packages' generators re-run under the sanitizer variant the package declares "
         "(-fno-sanitize-recover / trap) and compared with the extracted model (a sanitizer report = `crash` = disagreement); "
         "non-trivial = distinct case" % (N_BATTERIES, N_CE, len(KINDS)))
@@ -58,6 +61,29 @@ def gen(tier, rng):
             out.append(f"noalloc_ce {which} {idx}")
     for t in KINDS:
         out.append(f"default_init {t}")
+    out += _tofloat_cases(tier, rng)
+    return out
+
+
+def _tofloat_cases(tier, rng):
+    """to_floating_point on views into exact-size buffers: every placement of a view of length 0..3 in buffers of length
+    0..4 over a small alphabet (exhaustive for the short ones), then random longer ones; views flush against the end of the
+    buffer, empty views, embedded null characters, no terminator anywhere"""
+    alpha = [32, 9, 49, 50, 57, 46, 120, 45, 0]
+    out = ["tofloat d 4 49 50 51 52 0 2", "tofloat d 4 49 50 51 52 2 2", "tofloat d 0 0 0", "tofloat f 1 49 0 1", "tofloat f 1 49 1 0"]
+    import itertools
+    for n in range(1, 4):
+        for cs in itertools.product(alpha, repeat=n):
+            for off in range(0, n + 1):
+                ln = n - off                      # flush against the end of the allocation
+                out.append("tofloat d %d %s %d %d" % (n, " ".join(map(str, cs)), off, ln))
+    nrand = 1500 if tier == "quick" else 40000
+    for _ in range(nrand):
+        n = rng.randint(1, 12)
+        cs = [rng.choice(alpha if rng.random() < 0.5 else [48, 49, 50, 46, 32]) for _ in range(n)]
+        off = rng.randint(0, n)
+        ln = rng.choice([n - off, rng.randint(0, n - off)])
+        out.append("tofloat %s %d %s %d %d" % (rng.choice("df"), n, " ".join(map(str, cs)), off, ln))
     return out
 
 
